@@ -228,6 +228,8 @@ def run(project, sub, init_reg, init_mem, havoc, oracle, max_visits=24, choices=
             hr, hm = havoc(calls)
             calls += 1
             if pure_extern is not None and k == "call":
+                if pure_extern.get("on_call") is not None:
+                    pure_extern["on_call"](calls - 1, j, hr)
                 # callee modelled as a pure extern function: callee-saved registers and memory survive, the stack pointer
                 # is popped by pure_extern["sp_pop"], every other register holds an arbitrary value afterwards
                 keep = set(pure_extern["callee_saved"])
